@@ -56,14 +56,15 @@ fn item(s: &[u8], st: &mut St) -> Option<StructureTag> {
             let parts: Vec<&[u8]> = l.split(|c| *c == b':').collect();
             let (attr, dn, rule): (Option<&[u8]>, bool, Option<&[u8]>) = match parts.as_slice() {
                 [a] if !a.is_empty() => (Some(a), false, None),
-                [a, x] if !a.is_empty() => if *x == b"dn" { (Some(a), true, None) } else { (Some(a), false, Some(x)) },
-                [a, d, r] if !a.is_empty() && *d == b"dn" => (Some(a), true, Some(r)),
-                [e, x] if e.is_empty() => { if *x == b"dn" { st.ambiguous = true; return None; } (None, false, Some(x)) }
-                [e, d, r] if e.is_empty() && *d == b"dn" => (None, true, Some(r)),
+                // dnattrs = COLON "dn" is an ABNF literal: any case (F37)
+                [a, x] if !a.is_empty() => if x.eq_ignore_ascii_case(b"dn") { (Some(a), true, None) } else { (Some(a), false, Some(x)) },
+                [a, d, r] if !a.is_empty() && d.eq_ignore_ascii_case(b"dn") => (Some(a), true, Some(r)),
+                [e, x] if e.is_empty() => { if x.eq_ignore_ascii_case(b"dn") { st.ambiguous = true; return None; } (None, false, Some(x)) }
+                [e, d, r] if e.is_empty() && d.eq_ignore_ascii_case(b"dn") => (None, true, Some(r)),
                 _ => return None,
             };
             if let Some(a) = attr { if !attrdesc(a, st) { return None; } }
-            if let Some(r) = rule { if !oid(r, st) { return None; } if r == b"dn" && !dn { st.ambiguous = true; } }
+            if let Some(r) = rule { if !oid(r, st) { return None; } if r.eq_ignore_ascii_case(b"dn") && !dn { st.ambiguous = true; } }
             let v = unescape(rhs)?;
             let mut kids = vec![];
             if let Some(r) = rule { kids.push(ctx_p(1, r.to_vec())); }
